@@ -247,7 +247,12 @@ def linear_interpolation(
         output_core_dims=[[target_dim]],
         exclude_dims=set((phi_dim, theta_dim)),
         dask="parallelized",
-        output_dtypes=[phi.dtype],
+        # the kernels compute in floating point: in single precision only if every input is, otherwise in double
+        output_dtypes=[
+            np.result_type(
+                phi.dtype, theta.dtype, target_theta_levels.dtype, np.float32
+            )
+        ],
     )
     return out
 
@@ -268,7 +273,12 @@ def conservative_interpolation(
         dask="parallelized",
         dask_gufunc_kwargs={"output_sizes": {remapped: len(target_theta_levels) - 1}},
         # Since we are introducing a new dimension instead of changing it we need to declare the output size.
-        output_dtypes=[phi.dtype],
+        # the kernels compute in floating point: in single precision only if every input is, otherwise in double
+        output_dtypes=[
+            np.result_type(
+                phi.dtype, theta.dtype, target_theta_levels.dtype, np.float32
+            )
+        ],
     ).rename({remapped: target_dim})
 
     # assign the target cell center
